@@ -1,0 +1,41 @@
+//go:build verif
+
+package iavl
+
+import (
+	"encoding/hex"
+	"fmt"
+
+	"github.com/cosmos/iavl/internal/encoding"
+)
+
+// This file is only compiled with the build tag "verif". It re-exports internal decoders and
+// read-only views so that the external verification harness can exercise them directly.
+
+// VerifDecodeUvarint re-exports internal/encoding.DecodeUvarint.
+func VerifDecodeUvarint(bz []byte) (uint64, int, error) { return encoding.DecodeUvarint(bz) }
+
+// VerifDecodeVarint re-exports internal/encoding.DecodeVarint.
+func VerifDecodeVarint(bz []byte) (int64, int, error) { return encoding.DecodeVarint(bz) }
+
+// VerifDecodeBytes re-exports internal/encoding.DecodeBytes.
+func VerifDecodeBytes(bz []byte) ([]byte, int, error) { return encoding.DecodeBytes(bz) }
+
+// VerifIsReferenceRoot re-exports isReferenceRoot.
+func VerifIsReferenceRoot(bz []byte) (bool, int) { return isReferenceRoot(bz) }
+
+// VerifNodeString renders the fields of a decoded node canonically.
+func VerifNodeString(n *Node) string {
+	if n == nil {
+		return "nil"
+	}
+	ver := int64(0)
+	if n.nodeKey != nil {
+		ver = n.nodeKey.version
+	}
+	if n.subtreeHeight == 0 {
+		return fmt.Sprintf("L,h=%d,s=%d,ver=%d,k=%s,v=%s", n.subtreeHeight, n.size, ver, hex.EncodeToString(n.key), hex.EncodeToString(n.value))
+	}
+	return fmt.Sprintf("I,h=%d,s=%d,ver=%d,k=%s,hash=%s,l=%s,r=%s", n.subtreeHeight, n.size, ver, hex.EncodeToString(n.key),
+		hex.EncodeToString(n.hash), hex.EncodeToString(n.leftNodeKey), hex.EncodeToString(n.rightNodeKey))
+}
